@@ -359,6 +359,12 @@ class Scheduler:
             self.task_states[tid] = LocalStatus.KILLED
         except TaskFailedError:
             self.task_states[tid] = LocalStatus.FAILED
+        except Exception:
+            # E.g. the working directory does not exist, the log files cannot
+            # be written or a dependency id is unknown: the task has failed,
+            # it must not stay submitted/running forever.
+            logger.exception("Task %s (%s) failed unexpectedly", tid, name)
+            self.task_states[tid] = LocalStatus.FAILED
         else:
             self.task_states[tid] = LocalStatus.COMPLETED
         finally:
